@@ -421,61 +421,328 @@ def _concrete_restart(V, driver, table, n, info, nsteps=6):
             V.prove(ok, lab, info=info + ":" + ";".join(bad[:3]))
 
 
-def sc_forcebias(V, adaptive=False):
-    """ForceBias offers a restart file too: it must be writable and lead back to a simulation."""
-    import ase.io.jsonio as J
-    from ase import Atoms
-    from ase.calculators.lj import LennardJones
+class CommCalc:
+    """Calculator with committee data.  Every quantity is an uninterpreted function of the positions (sym)
+    or a fixed smooth function of them (replay); `results` is filled by an evaluation only, so a calculator
+    re-attached after a restart starts empty, as a real one does."""
+
+    MEMBERS = 2
+
+    def __init__(self, mode, n, active=None):
+        self.mode, self.n = mode, n
+        # coordinates that feel a force in sym mode (all by default)
+        self.active = tuple((i, c) for i in range(n) for c in range(3)) if active is None else tuple(active)
+        self.results = {}
+        self.nevals = 0
+        if mode == "sym":
+            k = 3 * n
+            R = [z3.RealSort()] * (k + 1)
+            self.F = [[z3.Function(f"fbF{i}{c}", *R) for c in range(3)] for i in range(n)]
+            self.C = [[[z3.Function(f"fbC{m}{i}{c}", *R) for c in range(3)] for i in range(n)] for m in range(self.MEMBERS)]
+            self.En = [z3.Function(f"fbE{m}", *R) for m in range(self.MEMBERS)]
+
+    def _eval(self, atoms):
+        n, M = self.n, self.MEMBERS
+        self.nevals += 1
+        if self.mode == "sym":
+            args = [lift(v) for v in np.asarray(atoms.positions, dtype=object).ravel().tolist()]
+            F = np.empty((n, 3), dtype=object)
+            C = np.empty((M, n, 3), dtype=object)
+            for i in range(n):
+                for c in range(3):
+                    F[i, c] = SR(self.F[i][c](*args)) if (i, c) in self.active else 0.0
+                    for m in range(M):
+                        C[m, i, c] = SR(self.C[m][i][c](*args))
+            En = np.array([SR(f(*args)) for f in self.En], dtype=object)
+            self.results = {"forces": F, "energy": En[0], "forces_comm": C, "energies": En}
+            return
+        x = np.asarray(atoms.positions, dtype=float)
+        r0 = np.array([[1.0, 1.0, 1.0], [2.5, 1.2, 1.1], [1.7, 2.6, 1.3]])[:n]
+        F = -(x - r0) - 0.3 * (x - r0) ** 3
+        C = np.array([F * (1.0 + 0.07 * (m + 1) * np.cos(3.0 * x + m)) for m in range(M + 1)])
+        e = float(0.5 * ((x - r0) ** 2).sum() + 0.075 * ((x - r0) ** 4).sum())
+        En = np.array([e * (1.0 + 0.05 * np.sin(x.sum() + m)) for m in range(M + 1)])
+        self.results = {"forces": F, "energy": e, "forces_comm": C, "energies": En}
+
+    def get_forces(self, atoms=None):
+        self._eval(atoms)
+        return np.array(self.results["forces"]).copy()
+
+    def get_potential_energy(self, atoms=None, force_consistent=False):
+        self._eval(atoms)
+        return self.results["energy"]
+
+
+FB_UNWIND = 2
+
+
+def _engine_gap(ex):
+    """A numpy loop that cannot take the symbolic proxies is a gap of the engine, not a property failure."""
+    msg = str(ex)
+    if isinstance(ex, symx.Unsupported):
+        raise ex
+    if isinstance(ex, TypeError) and ("ufunc" in msg or "not supported between" in msg) and any(t in msg for t in ("SR", "SI", "SB")):
+        raise symx.Unsupported("numpy operation without a symbolic counterpart: " + msg[:120])
+
+
+def _fb_make(V, adaptive, scheme, upd, n, fixcom, power, custom_masses, restart_file=None):
     from ase.constraints import FixCom
 
     from quansino.mc.fbmc import AdaptiveForceBias, ForceBias
+
+    sym = V.mode == "sym"
+    atoms = mcsim.make_atoms(V, n, momenta=True, extras=False)
+    if fixcom:
+        atoms.set_constraint(FixCom())
+    # more than one atom, or the adaptive driver: only one coordinate feels a force (each force-bearing coordinate multiplies the paths by 4)
+    atoms.calc = CommCalc(V.mode, n, active=None if (n == 1 and not adaptive) else ((0, 0),))
+    T = V.real("T", lo=10, hi=3000)
+    kw = dict(seed=77)
+    if restart_file is not None:
+        kw.update(restart_file=restart_file, logging_mode="w")
+    import warnings
+
+    with warnings.catch_warnings():
+        warnings.simplefilter("ignore")
+        if adaptive:
+            fb = AdaptiveForceBias(atoms, min_delta=V.real("dmin", lo=0.001, hi=0.1), max_delta=V.real("dmax", lo=0.1, hi=1), temperature=T, scheme=scheme, reference_variance=V.real("refvar", lo=0.01, hi=2), update_function=upd, **kw)
+        else:
+            fb = ForceBias(atoms, delta=V.real("delta", lo=0.001, hi=1), temperature=T, **kw)
+    if power == "dict":
+        fb.masses_scaling_power = {"Cu": 0.3, "Ag": 0.2}
+    elif power == "array":
+        fb.masses_scaling_power = np.array([[0.2, 0.25, 0.3], [0.35, 0.15, 0.1], [0.25, 0.3, 0.2]][:n])
+    elif power == "float":
+        fb.masses_scaling_power = 0.4
+    if custom_masses:
+        fb.update_masses(np.array([[30.0, 60.0, 90.0], [100.0, 110.0, 45.0], [70.0, 20.0, 50.0]][:n]))
+    if sym and isinstance(fb._masses_scaling_power, np.ndarray) and fb._masses_scaling_power.dtype == object:
+        # the numpy shim builds object arrays; concrete contents go back to float64 so that np.power takes
+        # numpy's float loop on both sides (Python's float pow differs from it in the last bit)
+        fb._masses_scaling_power = fb._masses_scaling_power.astype(float)
+    return fb, atoms
+
+
+def _fb_diffs(V, a, b, after_step=False):
+    diffs = []
+    for nm in ("step_count", "_seed", "temperature", "masses_scaling_power", "shaped_masses", "gamma_max_value"):
+        c08.equal_value(V, getattr(a, nm), getattr(b, nm, None), nm, diffs)
+    adaptive = hasattr(a, "min_delta")
+    if adaptive:
+        for nm in ("min_delta", "max_delta", "reference_variance", "scheme", "update_function"):
+            c08.equal_value(V, getattr(a, nm), getattr(b, nm, None), nm, diffs)
+    if not adaptive or after_step:
+        c08.equal_value(V, np.asarray(a.delta, dtype=object), np.asarray(b.delta, dtype=object), "delta", diffs)
+    x, y = a.atoms, b.atoms
+    if len(x) != len(y) or list(x.numbers) != list(y.numbers) or [type(c).__name__ for c in x.constraints] != [type(c).__name__ for c in y.constraints]:
+        diffs.append("atoms")
+    else:
+        c08.equal_value(V, np.asarray(x.arrays["positions"]), np.asarray(y.arrays["positions"]), "atoms.positions", diffs)
+        c08.equal_value(V, np.asarray(x.cell.array), np.asarray(y.cell.array), "atoms.cell", diffs)
+        c08.equal_value(V, np.asarray(x.get_momenta()), np.asarray(y.get_momenta()), "atoms.momenta", diffs)
+        c08.equal_value(V, np.asarray(x.get_masses()), np.asarray(y.get_masses()), "atoms.masses", diffs)
+    return diffs
+
+
+def sc_forcebias(V, adaptive=False, scheme="forces", upd="tanh", n=1, fixcom=False, power="default", custom_masses=False, unwind=FB_UNWIND, _opts=None):
+    """ForceBias / AdaptiveForceBias offer a restart file too: arbitrary state -> real RestartObserver -> real
+    JSON codec -> get_class(name).from_dict -> calculator re-attached -> state equality and one further step in
+    lockstep with the live simulation on the same draw symbols."""
+    from quansino.io.restart import RestartObserver
     from quansino.registry import get_class
 
     name = "AdaptiveForceBias" if adaptive else "ForceBias"
-    if V.mode == "sym":
-        # nothing symbolic here: run the concrete experiment on the unpatched modules (subprocess)
-        import json
-        import subprocess
-
-        from ..runner import PY, ROOT
-
-        for lab, inf in (("restart-file-written", name), ("rebuilt-in-the-documented-way", name + ":AttributeError"), ("state-restored", name)):
-            with tempfile.NamedTemporaryFile("w", suffix=".json", delete=False) as fh:
-                json.dump({"property": "C07", "scenario": f"forcebias[adaptive={adaptive}]", "params": {"adaptive": adaptive}, "label": lab, "witness": {"symbols": {}, "draws": []}}, fh)
-            try:
-                p = subprocess.run([PY, "-m", "qverif.main", "C07", "--replay", fh.name, "--quiet"], cwd=ROOT, capture_output=True, text=True, timeout=200)
-            finally:
-                os.unlink(fh.name)
-            if p.returncode == 1:
-                V.fail(lab, info=inf)
-                return
-        V.reach("rebuilt")
+    info = f"{name}:scheme={scheme}:update={upd}:n={n}:fixcom={fixcom}:power={power}:masses={custom_masses}"
+    if V.mode != "sym":
+        return _concrete_fb_restart(V, adaptive, scheme, upd, fixcom, power, custom_masses, info)
+    E().no_axioms = ("exp", "tanh", "sqrt")
+    try:
+        fb, atoms = _fb_make(V, adaptive, scheme, upd, n, fixcom, power, custom_masses)
+    except (symx.PathAbort, symx.BoundHit, symx.Unsupported):
+        raise
+    except Exception as ex:  # noqa: BLE001
+        V.fail("restart-file-written", info=info + ":constructor:" + type(ex).__name__ + ":" + str(ex)[:60])
         return
-    with tempfile.TemporaryDirectory() as td:
-        path = os.path.join(td, "fb.json")
-        atoms = Atoms("Cu3", positions=[[0.9, 1.1, 1.3], [2.25, 1.5, 1.6], [3.6, 1.1, 1.9]], cell=mcsim.CELL, pbc=True)
-        atoms.set_constraint(FixCom())
-        atoms.calc = LennardJones(sigma=1.0, epsilon=0.05, rc=3.0)
+    fb.step_count = V.int("k", 0, None)
+    fb._rng.ident = V.int("rng_ident", 0, None)
+    fb._rng.ndraws = V.int("rng_pos", 0, None)
+    # the live calculator has been evaluated at the current positions (every real step ends with an evaluation)
+    atoms.calc._eval(atoms)
+    buf = io.StringIO()
+    try:
+        ro = RestartObserver(fb, file=buf, interval=1, mode="w")
+        import ase.io.jsonio as J
+
+        sent = c08.Sentinels()
+        orig = J.MyEncoder.default
+
+        def default(self, obj):
+            if isinstance(obj, (SR, SI)):
+                return sent.enc(obj)
+            if isinstance(obj, np.ndarray) and obj.dtype == object:
+                flat = [sent.enc(x) if isinstance(x, (SR, SI)) else x for x in obj.ravel().tolist()]
+                return orig(self, np.array(flat, dtype=float).reshape(obj.shape))
+            return orig(self, obj)
+
+        J.MyEncoder.default = default
         try:
-            if adaptive:
-                fb = AdaptiveForceBias(atoms, min_delta=0.01, max_delta=0.05, temperature=300.0, seed=5, restart_file=path, logging_mode="w")
-            else:
-                fb = ForceBias(atoms, delta=0.02, temperature=300.0, seed=5, restart_file=path, logging_mode="w")
-            fb.run(2)
-            fb.close()
-            with open(path) as fh:
-                data = J.read_json(fh)
-        except Exception as ex:  # noqa: BLE001
-            V.fail("restart-file-written", info=f"{name}:{type(ex).__name__}:{str(ex)[:60]}")
-            return
-        try:
-            cls = get_class(data["name"])
-            fb2 = cls.from_dict(data)
-        except Exception as ex:  # noqa: BLE001
-            V.fail("rebuilt-in-the-documented-way", info=f"{name}:{type(ex).__name__}")
-            return
-        V.prove(fb2.step_count == fb.step_count, "state-restored", info=name)
+            ro()
+        finally:
+            J.MyEncoder.default = orig
+        buf.seek(0)
+        data = _symatoms(sent.dec(J.read_json(buf)))
+    except Exception as ex:  # noqa: BLE001
+        _engine_gap(ex)
+        V.fail("restart-file-written", info=info + ":" + type(ex).__name__ + ":" + str(ex)[:70])
+        return
+    try:
+        import warnings
+
+        with warnings.catch_warnings():
+            warnings.simplefilter("ignore")
+            fb2 = get_class(data["name"]).from_dict(data)
+    except Exception as ex:  # noqa: BLE001
+        V.fail("rebuilt-in-the-documented-way", info=info + ":" + type(ex).__name__ + ":" + str(ex)[:70])
+        return
     V.reach("rebuilt")
+    V.prove(type(fb2) is type(fb), "same-driver-class", info=info)
+    gd = []
+    c08.equal_value(V, fb._rng.ident, fb2._rng.ident, "generator.stream", gd)
+    c08.equal_value(V, fb._rng.ndraws, fb2._rng.ndraws, "generator.position", gd)
+    V.prove(not gd, "generator-state-restored", info=info)
+    diffs = _fb_diffs(V, fb, fb2)
+    V.prove(not diffs, "state-restored", info=info + ":" + ",".join(sorted({d.split(":")[0].split("[")[0] for d in diffs}))[:80])
+    if diffs or gd:
+        return
+    fb2.atoms.calc = CommCalc("sym", n, active=atoms.calc.active)  # re-attached: same potential, nothing evaluated yet
+    fb2.atoms.calc.F, fb2.atoms.calc.C, fb2.atoms.calc.En = atoms.calc.F, atoms.calc.C, atoms.calc.En
+    calls = [0]
+    orig_gz = fb.get_zeta
+
+    def gz():
+        calls[0] += 1
+        if calls[0] > unwind:
+            E().reach("cut-at-unwind-bound")
+            raise symx.PathAbort()
+        return orig_gz()
+
+    fb.get_zeta = gz
+    try:
+        import warnings
+
+        with warnings.catch_warnings():
+            warnings.simplefilter("ignore")
+            fb.step()
+            fb.step_count += 1
+            fb2.step()
+            fb2.step_count += 1
+    except (symx.PathAbort, symx.BoundHit, symx.Unsupported):
+        raise
+    except Exception as ex:  # noqa: BLE001
+        V.fail("continues-after-restart", info=info + ":" + type(ex).__name__ + ":" + str(ex)[:70])
+        return
+    V.reach("stepped")
+    d2 = _fb_diffs(V, fb, fb2, after_step=True)
+    gd = []
+    c08.equal_value(V, fb._rng.ident, fb2._rng.ident, "generator.stream", gd)
+    c08.equal_value(V, fb._rng.ndraws, fb2._rng.ndraws, "generator.position", gd)
+    V.prove(not d2 and not gd, "same-state-after-the-next-step", info=info + ":" + ",".join(sorted({d.split(":")[0].split("[")[0] for d in d2 + gd}))[:80])
+
+
+def _concrete_fb_restart(V, adaptive, scheme, upd, fixcom, power, custom_masses, info, nsteps=5, n=3):
+    """Replay: real PCG64, real files, a deterministic calculator with committee data (no neighbour list)."""
+    import warnings
+
+    import ase.io.jsonio as J
+
+    from quansino.registry import get_class
+
+    class _Geo(symx.Replay):
+        def array(self, name, shape):
+            if name == "x":
+                # (no coordinate sits exactly at the minimum of CommCalc's replay potential: zero committee forces
+                # make the adaptive driver divide 0 by 0, which is outside this property)
+                return np.array([[1.1, 1.06, 0.93], [2.4, 1.3, 1.02], [1.6, 2.7, 1.4]])[: shape[0]]
+            if name == "p":
+                return np.zeros(shape)
+            return super().array(name, shape)
+
+        def real(self, name, lo=None, hi=None, **k):
+            if name not in self.sym and lo is not None and hi is not None:
+                return lo + 0.3718281828459045 * (hi - lo)
+            return super().real(name, lo, hi, **k)
+
+    # the experiment does not depend on the witness (and arbitrary witness values of T/delta can make the real
+    # rejection sampling run for ever): fixed, non-round parameter values
+    Vc = _Geo({"symbols": {}, "draws": []})
+    warnings.simplefilter("ignore")
+
+    def fresh(path=None):
+        return _fb_make(Vc, adaptive, scheme, upd, n, fixcom, power, custom_masses, restart_file=path)
+
+    import signal
+
+    class _Hung(Exception):
+        pass
+
+    def _alarm(*a):
+        raise _Hung()
+
+    old_handler = signal.signal(signal.SIGALRM, _alarm)
+    signal.alarm(90)  # the real rejection sampling has no iteration bound: a run that does not come back is a failure
+    try:
+        return _concrete_fb_body(V, fresh, nsteps, n, info, J, get_class, Vc)
+    except _Hung:
+        for lab in ("continues-after-restart", "same-state-after-the-next-step", "parameter-preserved"):
+            V.fail(lab, info=info + ":run-did-not-terminate")
+    finally:
+        signal.alarm(0)
+        signal.signal(signal.SIGALRM, old_handler)
+
+
+def _concrete_fb_body(V, fresh, nsteps, n, info, J, get_class, Vc):
+    ref, ratoms = fresh()
+    ref.run(nsteps)
+    want = (np.array(ratoms.positions), np.array(ratoms.get_momenta()), ref.step_count, np.array(ref.delta, dtype=float))
+    written, rebuilt, state, cont = [], [], [], []
+    with tempfile.TemporaryDirectory() as td:
+        for k in range(nsteps):
+            path = os.path.join(td, f"r{k}.json")
+            try:
+                a, _ = fresh(path)
+                a.run(k)
+                a.close()
+                with open(path) as fh:
+                    data = J.read_json(fh)
+            except Exception as ex:  # noqa: BLE001
+                written.append(f"k={k}:{type(ex).__name__}:{str(ex)[:50]}")
+                continue
+            try:
+                b = get_class(data["name"]).from_dict(data)
+            except Exception as ex:  # noqa: BLE001
+                rebuilt.append(f"k={k}:{type(ex).__name__}:{str(ex)[:50]}")
+                continue
+            d = _fb_diffs(Vc, a, b)
+            if d or b._rng.bit_generator.state != a._rng.bit_generator.state:
+                state.append(f"k={k}:" + ",".join(sorted({x.split(":")[0] for x in d}) or ["generator"]))
+            try:
+                b.atoms.calc = CommCalc("replay", n)
+                b.run(nsteps - k)
+                same = np.array_equal(np.array(b.atoms.positions), want[0]) and np.array_equal(np.array(b.atoms.get_momenta()), want[1]) and b.step_count == want[2] and np.array_equal(np.array(b.delta, dtype=float), want[3])
+                if not same:
+                    cont.append(f"k={k}:trajectory differs")
+            except Exception as ex:  # noqa: BLE001
+                cont.append(f"k={k}:{type(ex).__name__}:{str(ex)[:50]}")
+    V.prove(not written, "restart-file-written", info=info + ":" + ";".join(written[:3]))
+    V.prove(not rebuilt, "rebuilt-in-the-documented-way", info=info + ":" + ";".join(rebuilt[:3]))
+    V.prove(not rebuilt and not written, "same-driver-class", info=info)
+    V.prove(not state, "state-restored", info=info + ":" + ";".join(state[:3]))
+    V.prove(not state, "generator-state-restored", info=info + ":" + ";".join(state[:3]))
+    V.prove(not state and not cont, "parameter-preserved", info=info + ":" + ";".join((state + cont)[:3]))
+    V.prove(not cont, "continues-after-restart", info=info + ":" + ";".join(cont[:3]))
+    V.prove(not cont, "same-state-after-the-next-step", info=info + ":" + ";".join(cont[:3]))
+    V.reach("rebuilt")
+    V.reach("stepped")
 
 
 SCENARIOS = {"restart": sc_restart, "forcebias": sc_forcebias}
@@ -497,8 +764,15 @@ def _plan(tier):
     for d, tabs in TABLES.items():
         for t in tabs if tier != "quick" else tabs[:2]:
             P.append(("restart", dict(driver=d, table=t, n=2 if t not in ("dmol", "emol") else 3), ("rebuilt",)))
-    P.append(("forcebias", dict(adaptive=False), ()))
-    P.append(("forcebias", dict(adaptive=True), ()))
+    R = ("rebuilt", "stepped")
+    P.append(("forcebias", dict(adaptive=False, n=1), R))
+    P.append(("forcebias", dict(adaptive=False, n=2, fixcom=True, power="dict", custom_masses=True, unwind=1, _opts={"fork_timeout_ms": 250}), R))
+    P.append(("forcebias", dict(adaptive=True, scheme="forces", upd="tanh", n=1), R))
+    P.append(("forcebias", dict(adaptive=True, scheme="energy", upd="exp", n=1, power="float"), R))
+    if tier != "quick":
+        P.append(("forcebias", dict(adaptive=False, n=1, power="array", custom_masses=True), R))
+        P.append(("forcebias", dict(adaptive=True, scheme="forces", upd="exp", n=2, fixcom=True, power="dict", unwind=1, _opts={"fork_timeout_ms": 250}), R))
+        P.append(("forcebias", dict(adaptive=True, scheme="energy", upd="tanh", n=1, custom_masses=True), R))
     P.append(("restart", dict(driver="Canonical", table="d", n=2), (), "state-restored"))
     return P
 
@@ -510,5 +784,5 @@ def run(rep: Report):
     rep.bounds = {"drivers x tables": {d: list(t) for d, t in TABLES.items()}, "restart point": "symbolic step counter k >= 0, symbolic generator position, symbolic reference energies (arbitrary state)", "continuation": "1 step after the restart (inductive through state equality)", "atoms": "2-3"}
     rep.assumptions = ["numpy PCG64/Generator replaced by a stub whose state is a (stream, position) token and whose draws are symbols named by that token (equal states => equal draws)", "calculator re-attached after the restart (documented: calculators are not serialized)", "numeric parameters symbolic, carried through the real JSON codec as sentinels"]
     rep.stubs = ["TokenRNG/TokenBitGen", "sentinel hook in ase jsonio", "ModelCalc over an uninterpreted PES"]
-    rep.outside = ["calculator state", "open file positions of the observers", "ForceBias/AdaptiveForceBias (no from_dict: known finding)"]
+    rep.outside = ["calculator state", "open file positions of the observers", "ForceBias with more than one force-bearing coordinate for 2 atoms; rejection loop beyond 2 rounds"]
     rep.extra["explanation"] = "restart file -> rebuilt simulation: field-by-field state equality for an arbitrary symbolic state plus one-step bisimulation on shared draw symbols"
